@@ -32,10 +32,10 @@ Hdr(h) == HdrI(4660, h)
 (* bases *)
 
 NCx == { <<>>, <<0>>, <<1, 97>>, <<1, 65>>, <<192, 12>>, <<192, 14>>, <<64>>, <<192>> }
-NCy == IF Big THEN NCx ELSE { <<>>, <<0>>, <<192, 12>> }
+NCy == { <<>>, <<0>>, <<192, 12>> } \cup (IF Big THEN { <<1, 65>>, <<192, 14>> } ELSE {})
 \* (the cut and the absent tail are prefixes of the complete ones)
 QFix == { <<0, 1, 0, 1>>, <<0, 252, 0, 1>> }
-         \cup (IF Big THEN { <<0, 1, 0>>, <<>>, <<0, 251, 0, 1>>, <<0, 1, 0, 3>> } ELSE {})
+         \cup (IF Big THEN { <<0, 251, 0, 1>>, <<0, 1, 0, 3>> } ELSE {})
 
 \* <<flags, qd, an, ns, ar>>: query, response, response with an answer count,
 \* header-only error, response without question, two questions, 65535
@@ -81,6 +81,8 @@ HH == { <<>>, F(11, 1), F(12, 0), F(12, 255), Hdr(<<32768, 1, 0, 0, 0>>), Hdr(<<
         Hdr(<<32768, 1, 1, 0, 0>>) \o <<1, 97, 0, 0, 252, 0, 1>> \o XRec(1),
         Hdr(<<32768, 0, 1, 0, 0>>) \o XRec(1),
         Hdr(<<32771, 0, 0, 0, 0>>), HdrI(4661, <<32771, 0, 0, 0, 0>>),
+        \* an error reply without question that announces records is not "header only"
+        Hdr(<<32771, 0, 1, 0, 0>>), Hdr(<<32773, 0, 0, 1, 0>>), Hdr(<<33797, 0, 0, 0, 1>>),
         HdrI(4661, <<32768, 1, 0, 0, 0>>) \o <<1, 97, 0, 0, 1, 0, 1>>,
         LQ(32768, <<63, 63, 63, 61>>, 97), LQ(0, <<63, 63, 63, 61>>, 65), LQ(0, <<63, 63, 63, 62>>, 97) }
 
@@ -148,6 +150,9 @@ PairLaws == Both =>
   /\ HostileNeverAnswersV(x, y)
   /\ StartAnswerAnswersV(x) /\ StartAnswerAnswersV(y)
   /\ ClientRefinesV(x, y) /\ ClientRefinesV(y, x)
+  /\ CopyLawV(x, y) /\ CopyLawV(y, x)
+  \* reading record by record and skipping to the next section agree
+  /\ (x.rc # <<>>) = (\A i \in 1..3 : LET s == RSection(a, i) IN s.reach /\ ~s.err)
   \* a message cut off inside its question section never answers, and is
   \* never answered by, the message it was cut from
   /\ (fam # "H" /\ Len(b) < Len(a) /\ b = SubSeq(a, 1, Len(b)) /\ y.err) =>
